@@ -52,7 +52,7 @@ func ParsePem(data []byte) PemFile {
 	if bytes.HasPrefix(rest, []byte(HashPrefix)) {
 		if nl := bytes.IndexByte(rest, '\n'); nl >= 0 {
 			p.HasHash = true
-			p.HashText = string(rest[len(HashPrefix):nl])
+			p.HashText = string(bytes.TrimRight(rest[len(HashPrefix):nl], "\r"))
 			p.HashOK = isB64(p.HashText)
 			rest = rest[nl+1:]
 		}
